@@ -1409,20 +1409,23 @@ class Process(StateMachine, persistence.Savable, metaclass=ProcessStateMachineMe
                 # raised): a terminal state is final, so there is nothing left to transition to
                 return
 
-            if self._interrupt_action is not None and not self._interrupt_action.cancelled():
-                self._interrupt_action.run(next_state)
-            else:
-                # Everything nominal so transition to the next state
-                self.transition_to(next_state)
+            # The transition calls the lifecycle hooks of this process: they run in its scope like the step itself,
+            # so that `Process.current()` is this process there too
+            with self._process_scope():
+                if self._interrupt_action is not None and not self._interrupt_action.cancelled():
+                    self._interrupt_action.run(next_state)
+                else:
+                    # Everything nominal so transition to the next state
+                    self.transition_to(next_state)
 
-            # A request made by a hook or a listener during the transition (or while such a request was being
-            # carried out) could only be registered as the interrupt action, because the process is still
-            # stepping: carry it out now, or it would be lost
-            while not self.has_terminated():
-                action = self._interrupt_action
-                if action is None or action.done():
-                    break
-                action.run(None)
+                # A request made by a hook or a listener during the transition (or while such a request was being
+                # carried out) could only be registered as the interrupt action, because the process is still
+                # stepping: carry it out now, or it would be lost
+                while not self.has_terminated():
+                    action = self._interrupt_action
+                    if action is None or action.done():
+                        break
+                    action.run(None)
 
         finally:
             self._stepping = False
